@@ -1037,3 +1037,84 @@ def spec_react_actions(fns, consts):
 
 
 SPECS["C07"] = [spec_react_actions]
+
+
+# ------------------------------------------------------------------ C02: delimiter splitting keeps every piece
+
+def spec_react_delimiter(fns, consts):
+    """Parser::react's delimiter block (data flow on the paths through one pass of its loop): a raw value
+    containing the declared delimiter is replaced by ALL pieces of `OsStrExt::split(value, delimiter)` -
+    the split iterator is mapped to owned strings and extended into the new value list with no filter
+    in between, the delimiter being the arg's `get_value_delimiter()`; a value without the delimiter
+    (or a trailing value exempt from splitting) is pushed unchanged."""
+    con = contracts.Contracts(fns, default_pure=True)
+    ctx = symex.Ctx(consts, con)
+    fn = _find(fns, "parser/parser.rs", "react")
+    ex = symex.Exec(ctx, fn, [("opq", "self"), ("opq", "ident"), ("opq", "source"), ("opq", "arg"), ("opq", "raw_vals"), ("opq", "trailing_idx"), ("opq", "matcher")])
+    ex.run(havoc_unassigned=True, cut_loops=True)
+    obs = []
+    n_split = n_push = 0
+    paths = [(pc, env.get("#callargs", ())) for pc, env in ex.cuts] + [(pc, ca) for (pc, _), ca in zip(ex.returns, ex.return_callargs)]
+    for pc, ca in paths:
+        splits = [c for c in ca if re.search(r"OsStrExt>::split$", c[0])]
+        for sp in splits:
+            n_split += 1
+            ext = [c for c in ca if re.search(r"^<Vec<OsString> as Extend<OsString>>::extend::<", c[0]) and "OsStrExt>::split(" in c[1][1]]
+            ok = (len(ext) == 1
+                  and re.match(r"^<clap_lex::ext::Split<'_, '_> as Iterator>::map::<OsString, \{closure@[^}]*\}>\(<std::ffi::OsStr as clap_lex::OsStrExt>::split\(", ext[0][1][1]) is not None
+                  and "filter" not in ext[0][0] and "filter" not in ext[0][1][1] and "take" not in ext[0][1][1] and "skip" not in ext[0][1][1]
+                  and "Arg::get_value_delimiter(arg)" in sp[1][1])
+            obs.append({"fn": fn.name, "block": "loop", "kind": "spec", "target": "react_delimiter", "msg": "a delimited value contributes every piece of split(value, declared delimiter), unfiltered",
+                        "pc": list(pc), "neg": "false" if ok else "true"})
+        n_push += any(re.search(r"^Vec::<OsString>::push$", c[0]) for c in ca)
+    if n_split == 0 or n_push == 0:
+        obs.append({"fn": fn.name, "block": "shape", "kind": "spec", "target": "react_delimiter", "msg": "react's delimiter block no longer has the reference shape (split / push paths not found)", "pc": [], "neg": "true"})
+    for o in obs:
+        o.setdefault("target", "react_delimiter")
+    return ctx, obs, [_enc(fn, ex, len(paths))], con
+
+
+SPECS["C02"].append(spec_react_delimiter)
+
+
+# ------------------------------------------------------------------ C07: overrides are removed in both directions, all of them
+
+def spec_remove_overrides(fns, consts):
+    """Parser::remove_overrides (data flow through one pass of each of its loops): every id this
+    argument overrides is removed; every matched argument that overrides this one (its `overrides`
+    contains our id) is collected, and EVERY collected id is removed - the removal loop iterates the
+    very vector the collection loop pushed into."""
+    con = contracts.Contracts(fns, default_pure=True)
+    ctx = symex.Ctx(consts, con)
+    fn = _find(fns, "parser/parser.rs", "remove_overrides")
+    ex = symex.Exec(ctx, fn, [("opq", "self"), ("opq", "arg"), ("opq", "matcher")])
+    ex.run(havoc_unassigned=True, cut_loops=True)
+    allc = [c for _, env in ex.cuts for c in env.get("#callargs", ())] + [c for ca in ex.return_callargs for c in ca]
+    removes = {c[1][1] for c in allc if re.search(r"ArgMatcher::remove$", c[0]) and len(c[1]) == 2}
+    pushes = [c for c in allc if re.search(r"^Vec::<&Id>::push$", c[0])]
+    contains = [c for c in allc if re.search(r"::contains$", c[0])]
+    checks = []
+    fwd = any(re.search(r"^<std::slice::Iter<'_, Id> as Iterator>::next\(<&Vec<Id> as IntoIterator>::into_iter\(arg\.\d+\)\)@Some\.0$", r) for r in removes)
+    checks.append(("every id listed in this argument's `overrides` is removed from the matcher", fwd))
+    vec_keys = {p[1][0] for p in pushes}
+    pushed_ok = bool(pushes) and all(re.search(r"^Arg::get_id\(command::Command::find\(self\.0,.*ArgMatcher::arg_ids\(matcher\)", p[1][1]) for p in pushes) and len(vec_keys) == 1
+    checks.append(("each matched argument whose `overrides` contains this id is collected", pushed_ok and any("Arg::get_id(arg)" in c[1][-1] for c in contains)))
+    vk = next(iter(vec_keys)) if len(vec_keys) == 1 else "?"
+    back = any(r == f"<std::vec::IntoIter<&Id> as Iterator>::next(<Vec<&Id> as IntoIterator>::into_iter({vk}))@Some.0" for r in removes)
+    checks.append(("every collected overrider is removed (the removal loop iterates the collected vector)", back))
+    obs = []
+    for msg, ok in checks:
+        obs.append({"fn": fn.name, "block": "flow", "kind": "spec", "target": "remove_overrides", "msg": msg, "pc": [], "neg": "false" if ok else "true"})
+    # the push must be guarded by `contains(..) == true`
+    for pc, env in ex.cuts:
+        ca = env.get("#callargs", ())
+        if any(re.search(r"^Vec::<&Id>::push$", c[0]) for c in ca):
+            cs = [ctx.keys[k] for k in ctx.keys if re.search(r"::contains\(.*Arg::get_id\(arg\)\)$", k)]
+            obs.append({"fn": fn.name, "block": "loop", "kind": "spec", "target": "remove_overrides", "msg": "an argument is collected only if it declares an override of this one",
+                        "pc": list(pc), "neg": f"(not {cs[0]})" if len(cs) == 1 else "true"})
+    for o in obs:
+        o.setdefault("target", "remove_overrides")
+    return ctx, obs, [_enc(fn, ex, len(ex.cuts) + len(ex.returns))], con
+
+
+SPECS["C07"].append(spec_remove_overrides)
